@@ -75,6 +75,11 @@ void h_script_vnadata(void)
     STEP_INT("add_frequency", vnadata_add_frequency(vdp, 5.0), wf_vnadata(vdip));
 #endif
     STEP_INT("set_all_z0", vnadata_set_all_z0(vdp, (cell_t)z), wf_vnadata(vdip));
+    /* back to per-frequency z0, then init: a successful init leaves ordinary z0 (it allocates on the way back) */
+    STEP_INT("set_fz0 again", vnadata_set_fz0(vdp, 0, 0, (cell_t)z), wf_vnadata(vdip));
+    STEP_INT("init from fz0 mode", vnadata_init(vdp, VPT_S, 3, 3, 3), wf_vnadata(vdip));
+    CHECK(!vnadata_has_fz0(vdp), "init: a successful init leaves ordinary z0 mode");
+    STEP_INT("set_all_z0 after init", vnadata_set_all_z0(vdp, (cell_t)z), wf_vnadata(vdip));
     STEP_INT("resize shrink", vnadata_resize(vdp, VPT_UNDEF, 1, 2, 1), wf_vnadata(vdip));
     REACH("script finished");
 #if VERIF_FAIL_AT > 0
